@@ -66,6 +66,17 @@ def eval_term(t):
     return _f(eval_exact(t))
 
 
+def eval_term_eps(t, eps):
+    """Value of a Term with another value substituted for the `eps` leaf (a Fraction), as a binary64 float."""
+    global EPS
+    old = EPS
+    EPS = eps
+    try:
+        return _f(eval_exact(t))
+    finally:
+        EPS = old
+
+
 def size(t):
     """Number of nodes of a Term (for evidence bookkeeping)."""
     if "xs" in t:
